@@ -17,7 +17,7 @@ The graph family `W : Config × Dyn → Graph Node Rat` is a parameter tied to t
 Hypotheses and where they are used:
 * `rankWF u = true`, `UniqueAttrs u` — ranks grow along `rdeps`, so the model's fuel `fuelOf u` suffices for
   the cascade (start / stop / apply / unapply / changed / relevel);
-* `ResistWF u` (resisted effects have projected, non owner-skill modifiers only), and in `MInv`: `UniqueIds`,
+* `ResistWF u` (resisted effects have projected modifiers only), and in `MInv`: `UniqueIds`,
   `ChargeWF`, `TgtKinds` — coverage (`rdeps_complete`), used by the same steps and by load / unload;
 * `StaticAt` before and after the step (`StaticAround`) — third clause of `Legal` (absence of a dependency's
   value is stable) for load / unload / start / stop / apply / unapply;
@@ -137,7 +137,7 @@ nodes — skill levels — are not dependencies: the real code never caches them
 Hypotheses, in terms of the property's quantifier:
 * `hwf : rankWF u` — the attribute dependencies of the universe are acyclic (listed in rank order);
 * `hun : UniqueAttrs u` — attribute ids are unique;
-* `hR : ResistWF u` — resistance attributes only on effects with projected, non owner-skill modifiers;
+* `hR : ResistWF u` — resistance attributes only on effects with projected (`domain = 4`) modifiers;
 * `hb` — no warfare-buff effects (fleet boosts are outside the message-level layer);
 * `hU, hC, hT` — the initial configuration has unique item ids, charges sit in modules of their own fit,
   recorded projection targets are ships / drones / fighters (each is kept by every step);
